@@ -7,6 +7,9 @@ DONE = {
  'C04': 'for every hub operation the post-transaction rate of both tokens is not below the synchronised pre-rate (known finding: zero-pool corner)',
  'C05': 'peg fee: none at/above threshold, 0 <= fee <= amount x rate, never over-collects past the peg (known finding: convert bSei->stSei)',
  'C06': 'slashing synchronisation: booked = delegated exactly, pools within 2 units of pro-rata share, unchanged without slashing',
+ 'C10': 'every privileged message variant of all six contracts: no Ok path for a sender that is not the designated principal (symbolic sender/message/stored principals); two-step ownership transfer',
+ 'C11': 'paused hub: every variant except UpdateParams/MigrateUnbondWaitList has no Ok path for any sender; no unpause with legacy entries; queries never read the pause flag',
+ 'C20': 'instantiate + every update message with independently optional fields: stored fee/threshold/keeper rate <= 1, fixed denominations, omitted fields unchanged',
  'C12': 'delegation / undelegation kernels: conservation, balance bounds, termination, error exactly when request > total',
 }
 props=[json.loads(l) for l in open('/verif/properties.jsonl')]
